@@ -118,6 +118,9 @@ Proof.
   rewrite (run_obs_enabled c acts _ En) in R. inversion R; subst cs sf. auto.
 Qed.
 
+(* [run_plugin] is the replay function WITHOUT metrics reads; no suite evaluates
+   it any more (suite plugin evaluates Scrape.run_mplugin, whose accepted-case
+   lemma is ScrapeProofs.run_mplugin_accepts).  Kept as the special case. *)
 Lemma run_plugin_accepts : forall tbl cacts counts results,
   Forall obs_ok counts ->
   run_plugin (tbl, cacts, counts, results) = None ->
@@ -153,4 +156,33 @@ Proof.
   intros c acts. induction acts as [|a rest IH]; intros s E; simpl in *; [reflexivity|].
   unfold exec. destruct (step c s a) as [s'|]; [|discriminate].
   rewrite (IH s' E). unfold is_tick at 2. simpl. destruct a; reflexivity.
+Qed.
+
+(* a disabled action shows in what suite timer evaluates *)
+Lemma run_ticks_disabled : forall c acts s,
+  enabled c s acts = false -> In (-1) (run_ticks c s acts).
+Proof.
+  intros c acts. induction acts as [|a rest IH]; intros s E; simpl in *; [discriminate|].
+  destruct (step c s a) as [s'|]; [|simpl; auto].
+  specialize (IH s' E). destruct a; simpl; auto.
+Qed.
+
+(* an accepted case of suite timer (deadlines as observed are never negative)
+   is a schedule of enabled actions, and the observed deadlines are [next_tick]
+   after the passes of [trace] *)
+Lemma run_timer_accepts : forall q w n t0 acts nexts,
+  Forall obs_ok nexts ->
+  run_timer ((q, w, n), t0, acts, nexts) = None ->
+  let c := {| quota := q; wsize := w; qsize := n |} in
+  enabled c (init c t0) acts = true /\
+  eq_zs (map (fun tr : trans => next_tick (snd tr)) (filter is_tick (trace c (init c t0) acts)))
+        nexts = true.
+Proof.
+  intros q w n t0 acts nexts F H c. unfold run_timer in H. fold c in H.
+  destruct (eq_zs (run_ticks c (init c t0) acts) nexts) eqn:E; [|discriminate].
+  assert (En : enabled c (init c t0) acts = true).
+  { destruct (enabled c (init c t0) acts) eqn:En; [reflexivity|exfalso].
+    apply run_ticks_disabled in En.
+    pose proof (eq_zs_nonneg _ _ E F) as NN. rewrite Forall_forall in NN. specialize (NN _ En). lia. }
+  split; [exact En|]. rewrite <- (run_ticks_enabled c acts _ En). exact E.
 Qed.
